@@ -129,6 +129,12 @@ fn gen_c01(ctx: &mut Ctx) {
             rt_case(ctx, 0x0102 + k as u16, (k * 16 + j) as u8, &rng.bytes(len), j % 2 == 0, "rejected-line-then-more");
         }
     }
+    // the same round trips while a thread is being torn down (from the destructors of its thread-local objects)
+    for (k, len) in [0usize, 1, 16, 255].into_iter().enumerate() {
+        let line = format!("TLSD RT {} {} {}", 0x0102 + k, k * 60, { let b = rng.bytes(len); if b.is_empty() { "-".to_string() } else { hex_of_bytes(&b) } });
+        let res = ctx.case(line.clone(), true, "thread-teardown");
+        ctx.monitor(!res.contains("PANIC") && !res.contains("NOT-RUN"), "C01-roundtrip-shape", &line, &res);
+    }
     // no other public way of making a Data lets more than 255 bytes through (From<&'static [u8; N]>)
     for n in [0usize, 1, 4, 5, 16, 255, 256] {
         let line = format!("NEWS {}", n);
@@ -499,6 +505,12 @@ fn gen_c03(ctx: &mut Ctx) {
         }
     }
     ctx.notes.insert("exhaustive".into(), format!("all strings of length <= {} over the 28-symbol structural alphabet", maxlen));
+    // decoding while a thread is being torn down (from the destructors of its thread-local objects): total there too
+    for bad in [&b":01007F02FF7F"[..], &b":01007F02FF7E"[..], &b":00007F02007F"[..], &b":01007F02FF7"[..], &b"garbage"[..], &b":01007f02ff7f\r\n"[..], &b""[..]] {
+        let line = format!("TLSD DEC {}", if bad.is_empty() { "-".to_string() } else { hex_of_bytes(bad) });
+        let res = ctx.case(line.clone(), true, "thread-teardown");
+        ctx.monitor(!res.contains("PANIC") && !res.contains("NOT-RUN"), "C03-total", &line, &res);
+    }
     // more than 255 data bytes with a length byte equal to (or one off) the count modulo 256
     for s in oversize_strings(&mut rng) {
         dec_case(ctx, &s, "oversize-wire-data");
